@@ -25,7 +25,9 @@ PROBES = ['# h #\n', 't\n===\n', '> q\nl\n---\n', '```py\nc\n```\n', '<!-- c\n--
           '[r]\n\n[r]: /u "t"\n', '|a|b|\n|-|-|\n|c|d|\n', '&amp; &copy;\n', '$m$ [[w|l]]\n', '{{m}}\nx\n{{/m}}\n', 'hello world\n',
           '<?p\n?>\n\n<b\nc>\n', '> ```\n> x\n\n* a\n\n  b\n', 'l1\n\n> l2\n> t\n> ===\n\n- l3 `c`\n',
           '<x-y>\nin\n\nafter *x*\n', '<pre>\nin\n\nstill\n</pre>\n\nafter *x*\n', '<!X y>\n\nafter *x*\n',
-          '<![CDATA[\nin\n\n]]>\n\nafter *x*\n', '</x-y>\n\nafter *x*\n']
+          '<![CDATA[\nin\n\n]]>\n\nafter *x*\n', '</x-y>\n\nafter *x*\n',
+          # entity handling outside the inline tokenizer (definitions, info strings) depends on which pattern html._charref holds
+          '[r]: /u?a&copy=1 "t&lt x&ampy"\n\n[r]\n', '``` a&copy&amp\nc\n```\n\n> [q]: <&reg> (&copy)\n>\n> ![q]\n']
 FAULT_PROBES = [2, 5, 6, 13, 14]
 # second part of the observation vector: every text of <= 2 (thorough: 3) lines over the line alphabet under the
 # renderers whose constructors do not all touch the token lists (so that state left behind by an earlier context
